@@ -132,6 +132,17 @@ pub fn body_one(kind: u8, witness: bool) {
     let s = unsafe { std::str::from_utf8_unchecked(&text[..tl]) };
     let level = crate::util::any_level();
     let has = sym::any_bool();
+    let mdc = sym::any_bool();
+    unsafe {
+        crate::c09_pattern::MDC_SET = mdc;
+    }
+    #[cfg(not(kani))]
+    {
+        log_mdc::clear();
+        if mdc {
+            log_mdc::insert("k", crate::c09_pattern::MDC_VALUE);
+        }
+    }
     let mut sink = Rec { buf: [0; crate::c09_pattern::CAP], len: 0, styles: 0, resets: 0 };
     let res = verif_formatter_direct(
         &mut sink,
@@ -164,8 +175,17 @@ pub fn body_one(kind: u8, witness: bool) {
         7 => expect(&sink, b"main", 0, 0),
         8 => expect(&sink, b"7", 0, 0),
         9 => expect(&sink, b"", styled as u8, styled as u8),
+        12 => expect(&sink, if mdc { crate::c09_pattern::MDC_VALUE.as_bytes() } else { b"dflt" }, 0, 0),
+        // the ids are stubs under the solver (7, 4242); natively they are whatever the OS says: decimal digits only
+        13 | 14 if cfg!(not(kani)) => {
+            assert!(sink.len > 0 && sink.buf[..sink.len].iter().all(|b| b.is_ascii_digit()), "C09: an id is written as a decimal number");
+        }
+        13 => expect(&sink, b"7", 0, 0),
+        14 => expect(&sink, b"4242", 0, 0),
         _ => expect(&sink, b"", 0, 0),
     }
+    cover!(kind != 12 || mdc, "the MDC key is set");
+    cover!(kind != 12 || !mdc, "the MDC key is absent: default");
     cover!(!has, "optional record fields absent");
     cover!(tl >= 3, "text with a multi-byte scalar");
     cover!(matches!(level, Level::Debug), "Debug level");
@@ -178,9 +198,9 @@ harnesses! {
     common {
         #[cfg_attr(kani, kani::stub(chrono::Local::now, crate::c10_width::cut_local_now))]
         #[cfg_attr(kani, kani::stub(chrono::Utc::now, crate::c10_width::cut_utc_now))]
-        #[cfg_attr(kani, kani::stub(log_mdc::get, crate::c10_width::cut_mdc_get))]
-        #[cfg_attr(kani, kani::stub(thread_id::get, crate::c10_width::cut_thread_id))]
-        #[cfg_attr(kani, kani::stub(std::process::id, crate::c10_width::cut_process_id))]
+        #[cfg_attr(kani, kani::stub(log_mdc::get, crate::c09_pattern::stub_mdc_get))]
+        #[cfg_attr(kani, kani::stub(thread_id::get, crate::c09_pattern::stub_thread_id_get))]
+        #[cfg_attr(kani, kani::stub(std::process::id, crate::c09_pattern::stub_process_id))]
         #[cfg_attr(kani, kani::stub(std::backtrace::Backtrace::capture, crate::util::stub_backtrace_capture))]
         #[cfg_attr(kani, kani::stub(<anyhow::Error as std::ops::Drop>::drop, crate::util::stub_anyhow_drop))]
         #[cfg_attr(kani, kani::stub(<anyhow::Error as std::convert::From<std::io::Error>>::from, crate::util::stub_anyhow_from_cut))]
@@ -221,6 +241,12 @@ harnesses! {
     fn one_debug() { body_one(10, false) }
     #[kani::unwind(8)]
     fn one_release() { body_one(11, false) }
+    #[kani::unwind(8)]
+    fn one_mdc() { body_one(12, false) }
+    #[kani::unwind(8)]
+    fn one_thread_id() { body_one(13, false) }
+    #[kani::unwind(8)]
+    fn one_process_id() { body_one(14, false) }
     #[kani::unwind(8)]
     fn direct_fixed() { body_fixed_mode(true, false) }
     #[kani::unwind(8)]
